@@ -43,6 +43,7 @@ type Expect struct {
 	Repeat    []string              `json:"repeat,omitempty"`
 	Margin    bool                  `json:"margin,omitempty"`  // margin boxes draw "pg<P>of<N>"
 	Probes    int                   `json:"probes,omitempty"`  // in-flow "np<N>" probes
+	ProbeLiteral int                `json:"probe_literal,omitempty"` // value shown by an inactive probe (default 9)
 	PageW     float64               `json:"page_w,omitempty"`
 	PageH     float64               `json:"page_h,omitempty"`
 	PageSizes map[string][2]float64 `json:"page_sizes,omitempty"` // first | left | right | blank | <name>
